@@ -2062,6 +2062,12 @@ class AclMachine(Machine):
             else:
                 mem = self._ag_member_lines(w, plat, 1 if cls == "AddressAg" else s.randint(1, 4),
                                             allow_ncw=cfg["aborts"])
+                if cfg["aborts"] and cls == "AddrGroup" and plat == "nxos" and s.random() < 0.6 \
+                        and not any(x[1] for x in mem):
+                    # one member that cannot become an IOS subnet: refused, removed, converted again
+                    mask = s.choice([0x00000503, 0x00010100, 0x000000F5])
+                    mem.insert(s.randint(0, len(mem)),
+                               (f"{gen.ip(gen._base(w) & ~mask & 0xFFFFFFFF)} {gen.ip(mask)}", True))
                 ncw = any(x[1] for x in mem)
                 if cls == "AddressAg":
                     line = mem[0][0]
